@@ -4,6 +4,7 @@ import (
 	"fmt"
 	"go/token"
 	"go/types"
+	"regexp"
 	"sort"
 	"strings"
 
@@ -56,21 +57,36 @@ func runC07(c *Ctx) {
 	c.CheckGuard("C07.G1", "all:size-gate", po, nil, cmpReject("len(operationBuffer) > MaxOperationSize rejected", token.GTR, pathIs("len($2)"), pathIs(cfgInt("MaxOperationSize"))))
 	{
 		gate := cmpReject("size gate", token.GTR, pathIs("len($2)"), pathIs(cfgInt("MaxOperationSize")))
-		ok, w, _ := c.Guard(po, nil, gate, func(in ssa.Instruction) bool {
-			cl, isC := in.(*ssa.Call)
-			if !isC {
-				return false
-			}
-			// any use of the buffer other than len(): decoding or handing it to a per-type parser
-			for _, a := range cl.Call.Args {
-				if c.Path(a, nil) == "$2" {
-					if _, isB := cl.Call.Value.(*ssa.Builtin); !isB {
+		// gateFirst(f, env): in f no call receives the buffer (caller-side path $2) before the size gate, where a call
+		// to a module function that itself gates first is not such a use
+		var gateFirst func(f *ssa.Function, env Env, d int) (bool, []string)
+		gateFirst = func(f *ssa.Function, env Env, d int) (bool, []string) {
+			ok, w, _ := c.Guard(f, env, gate, func(in ssa.Instruction) bool {
+				cl, isC := in.(*ssa.Call)
+				if !isC {
+					return false
+				}
+				// any use of the buffer other than len(): decoding or handing it to a per-type parser
+				for _, a := range cl.Call.Args {
+					if c.Path(a, env) == "$2" {
+						if _, isB := cl.Call.Value.(*ssa.Builtin); isB {
+							continue
+						}
+						if g := cl.Call.StaticCallee(); g != nil && inModule(g) && g.Blocks != nil && d < 2 {
+							if okG, _ := gateFirst(g, c.calleeEnv(&cl.Call, g, env), d+1); okG {
+								if okE, _ := c.ensures(g, c.calleeEnv(&cl.Call, g, env), gate, 1); okE {
+									continue
+								}
+							}
+						}
 						return true
 					}
 				}
-			}
-			return false
-		})
+				return false
+			})
+			return ok, w
+		}
+		ok, w := gateFirst(po, nil, 0)
 		c.Check("C07.G1", "all:size-gate-before-decoding", ok, po.Pos(), "no decoding / parsing call receives the buffer before the size gate", w...)
 	}
 	c.checkParseDispatch("C07.G1")
@@ -131,18 +147,28 @@ func runC07(c *Ctx) {
 		}
 		c.Analysed(f)
 		mt := c.NamedType(pModel, map[string]string{"update": "UpdateSignedDataModel", "recover": "RecoverSignedDataModel", "deactivate": "DeactivateSignedDataModel"}[typ])
-		as := allocsOf(f, mt)
-		if len(as) != 1 {
-			c.Check("C07.G1", "sd-"+typ+":model", false, f.Pos(), "expected one signed-data model allocation")
-			continue
-		}
-		A := c.Path(as[0], nil)
+		// the model is the value every success exit returns (an allocation here, or what a decoding helper hands back)
+		var model ssa.Value
 		okRet := true
 		for _, r := range successReturns(f) {
-			if r.Results[0] != ssa.Value(as[0]) {
+			v := returnedValue(r, 0)
+			if model == nil {
+				model = v
+			} else if model != v {
 				okRet = false
 			}
 		}
+		if pt, isP := func() (*types.Pointer, bool) {
+			if model == nil {
+				return nil, false
+			}
+			p, ok := model.Type().Underlying().(*types.Pointer)
+			return p, ok
+		}(); !isP || !types.Identical(pt.Elem(), mt) {
+			c.Check("C07.G1", "sd-"+typ+":model", false, f.Pos(), "expected the success exits to return one signed-data model")
+			continue
+		}
+		A := c.Path(model, nil)
 		c.Check("C07.G1", "sd-"+typ+":returns-decoded-model", okRet, f.Pos(), "the validated model is the one returned")
 		// decoded from the JWS payload
 		c.CheckGuard("C07.G1", "sd-"+typ+":payload-decoded", f, nil, &GCheck{Name: "json.Unmarshal(jws.Payload, model)", MatchCall: func(c *Ctx, call *ssa.Call, env Env) bool {
@@ -437,7 +463,7 @@ func (c *Ctx) configSinks() {
 				if idx < 0 {
 					continue
 				}
-				if g != nil && inModule(g) && g.Blocks != nil && idx < len(g.Params) && !strings.Contains(g.Pkg.Pkg.Path(), "/internal/log") && !strings.HasSuffix(g.Pkg.Pkg.Path(), "/pkg/log") {
+				if g != nil && inModule(g) && g.Blocks != nil && idx < len(g.Params) && !strings.Contains(pkgPathOf(g), "/internal/log") && !strings.HasSuffix(pkgPathOf(g), "/pkg/log") {
 					follow(fld, g.Params[idx], d+1, seen)
 					continue
 				}
@@ -460,7 +486,7 @@ func (c *Ctx) configSinks() {
 		}
 	}
 	for _, f := range c.Funcs {
-		pp := f.Pkg.Pkg.Path()
+		pp := pkgPathOf(f)
 		if pp != modPkg+pParser && pp != modPkg+pApplier {
 			continue
 		}
@@ -477,7 +503,7 @@ func (c *Ctx) configSinks() {
 		})
 	}
 	want := map[string][]string{
-		"MaxOperationSize":       {"cmp: len($2) > cfg"},
+		"MaxOperationSize":       {"cmp: len($·) > cfg"},
 		"MaxOperationHashLength": {"cmp: len($1) > cfg"},
 		"MaxDeltaSize":           {"cmp: len(canonicalizer.MarshalCanonical($1)#0) > cfg"},
 		"NonceSize":              {"cmp: len(encoder.DecodeString($1)#0) != cfg"},
@@ -499,11 +525,19 @@ func (c *Ctx) configSinks() {
 	sort.Strings(flds)
 	for _, f := range flds {
 		var got []string
+		// parameter positions are not part of the rule (a helper may take its arguments in any order): $2 -> $·
+		gotSet := map[string]bool{}
 		for s := range sinks[f] {
+			gotSet[paramPosRe.ReplaceAllString(s, "$$·")] = true
+		}
+		for s := range gotSet {
 			got = append(got, s)
 		}
 		sort.Strings(got)
 		w, known := want[f]
+		for i := range w {
+			w[i] = paramPosRe.ReplaceAllString(w[i], "$$·")
+		}
 		if !known {
 			c.Check("C07.K1", "sink:"+f, false, token.NoPos, fmt.Sprintf("Protocol.%s is read by the parser/applier but has no documented rule; sinks %v", f, got))
 			continue
@@ -523,3 +557,5 @@ func (c *Ctx) configSinks() {
 	}
 	c.Min("C07.K1", 9)
 }
+
+var paramPosRe = regexp.MustCompile(`\$[0-9]+`)
